@@ -37,6 +37,7 @@ def run(ctx):
         fams.append(("bytes #%d" % k, lang.bytes_program(rng)))
         fams.append(("loop-sequences #%d" % k, lang.two_loops_program(rng)))
         fams.append(("struct-order #%d" % k, lang.struct_order_program(rng)))
+        fams.append(("array-builtins #%d" % k, lang.array_ops_program(rng)))
         fams.append(("scoping-in-functions #%d" % k, lang.scoping_shadowed(rng)))
         fams.append(("char-classes #%d" % k, lang.charclass_program(rng)))
     for k in range(20 if quick else 400):
